@@ -182,8 +182,9 @@ private:
       // We are responsible for starting cleanup now that next() has finished.
 
       UNIFEX_ASSERT(oldState == state::source_next_active_cleanup_requested);
-      UNIFEX_ASSERT(stream_.cleanupOp_ != nullptr);
-      stream_.cleanupOp_->start_cleanup();
+      // (*this was destroyed along with nextOp_ above: only use strm here)
+      UNIFEX_ASSERT(strm.cleanupOp_ != nullptr);
+      strm.cleanupOp_->start_cleanup();
     }
 
     friend inplace_stop_token
